@@ -65,6 +65,7 @@ type c18In struct {
 	CS     bool     `json:"cs,omitempty"`   // httpserver.CaseSensitivePath during the request
 	Script []c18Op  `json:"script,omitempty"`
 	Ret    int      `json:"ret,omitempty"`
+	Stream string   `json:"stream,omitempty"` // generator stream (for the class histogram only)
 	// big: writes are generated (size, kind) pairs
 	Big []c18BigW `json:"big,omitempty"`
 	// burst: concurrent requests, each with its own generated writes
@@ -430,7 +431,13 @@ func c18Do(addr, method, target string, hdr map[string]string) c18Obs {
 	if _, err := conn.Write(sb.Bytes()); err != nil {
 		return c18Obs{Err: "write: " + err.Error()}
 	}
-	resp, err := http.ReadResponse(bufio.NewReader(conn), &http.Request{Method: method})
+	rd := bufio.NewReader(conn)
+	resp, err := http.ReadResponse(rd, &http.Request{Method: method})
+	// informational responses (1xx other than 101) precede the final one; a client skips them
+	for n := 0; err == nil && resp.StatusCode >= 100 && resp.StatusCode < 200 && resp.StatusCode != 101 && n < 16; n++ {
+		resp.Body.Close()
+		resp, err = http.ReadResponse(rd, &http.Request{Method: method})
+	}
 	if err != nil {
 		return c18Obs{Err: "read: " + err.Error()}
 	}
@@ -661,6 +668,8 @@ func c18RFCOffersGzip(ae string) bool {
 	return star
 }
 
+func c18IsInfo(code int) bool { return code >= 100 && code <= 199 && code != 101 }
+
 func c18Hazard(in *c18In) string {
 	ae := in.AE
 	if in.NoAE {
@@ -687,6 +696,19 @@ func c18Hazard(in *c18In) string {
 	case "script":
 		committed, flushFirst := false, false
 		ce := ""
+		// finding F-C18-8: an informational WriteHeader (1xx other than 101) before the final
+		// response, and after it - the final response still open - a change of Content-Encoding
+		// or Content-Length: the gzip layer has decided and rewritten the header map at the 1xx
+		infoSeen := false
+		for _, o := range in.Script {
+			k := http.CanonicalHeaderKey(o.A)
+			if !committed && infoSeen && (o.K == "set" || o.K == "add" || o.K == "del") && (k == "Content-Encoding" || k == "Content-Length") {
+				return "informational-then-header-change"
+			}
+			if o.K == "wh" && !committed && c18IsInfo(o.N) {
+				infoSeen = true
+			}
+		}
 		for _, o := range in.Script {
 			switch o.K {
 			case "f":
@@ -695,6 +717,9 @@ func c18Hazard(in *c18In) string {
 					committed, flushFirst = true, true
 				}
 			case "wh":
+				if c18IsInfo(o.N) {
+					continue // informational: the final response stays open
+				}
 				if committed {
 					return "repeated-writeheader"
 				}
@@ -802,6 +827,12 @@ func c18Skip(class, why string) Result {
 
 func c18ErrBody(status int) string { return fmt.Sprintf("%d %s\n", status, http.StatusText(status)) }
 
+// redirects produced by casket itself below the gzip layer: the redir directive (every code it
+// knows) and the file server's own redirect of a directory requested without trailing slash
+const c18Redirs = "redir /r301 /x.txt 301\nredir /r302.html /x.txt 302\nredir /r303.txt /x.txt 303\nredir /r307 /x.txt 307\nredir /r308.html /x.txt 308\nredir /skip/r302 /x.txt 302\n"
+
+var c18RedirPaths = []string{"/r301", "/r302.html", "/r303.txt", "/r307", "/r308.html", "/skip/r302", "/a", "/a/b", "/skip"}
+
 func c18Run(in0 interface{}) Result {
 	in := in0.(*c18In)
 	if in.Kind == "ext" {
@@ -809,7 +840,7 @@ func c18Run(in0 interface{}) Result {
 		return Result{Term: cApp("CExt", cStr(in.Path), cStr(e)), Obs: e, Sig: "ext", Class: "ext", Nontrivial: e != ""}
 	}
 	root := c18Fixture()
-	common := "root " + root + "\nc18probe\n"
+	common := "root " + root + "\nc18probe\n" + c18Redirs
 	gsite, err := c18Site(common + c18CfgText(in.Cfgs))
 	if err != nil {
 		return c18Skip(in.Kind+":setup-error", "gzip site: "+err.Error())
@@ -849,8 +880,26 @@ func c18Run(in0 interface{}) Result {
 			cZ(int64(in.Ret)), cStr(c18ErrBody(in.Ret)), G.term(e), P.term(e)))
 		compressed := len(G.CE) == 1 && G.CE[0] == "gzip" && len(P.CE) == 0
 		class := fmt.Sprintf("script:%s:gz=%v", map[bool]string{true: "hazard", false: "plain"}[hz != ""], compressed)
+		if in.Stream != "" {
+			class = fmt.Sprintf("%s:%dxx:body=%v:gz=%v", in.Stream, P.Status/100, len(P.Body) > 0, compressed)
+		}
 		return Result{Term: term, Obs: map[string]interface{}{"G": G.brief(), "P": P.brief()}, Sig: sig, Class: class,
 			Nontrivial: compressed || len(P.CE) > 0}
+	case "redirect":
+		// the handler is casket's own (redir / staticfiles): what it did is read off the identity
+		// response and handed to the model as a script; the property is judged on G and P alone
+		G := c18Do(gsite.addr, method, in.Path, hdr)
+		P := c18Do(psite.addr, method, in.Path, hdr)
+		script := []c18Op{{K: "set", A: "Content-Type", B: "text/html; charset=utf-8"}, {K: "wh", N: P.Status}}
+		if len(P.Body) > 0 {
+			script = append(script, c18Op{K: "w", D: P.Body})
+		}
+		e := &c18Emit{}
+		term := e.Wrap(cApp("CScript", cBool(in.CS), c18CfgTerm(in.Cfgs), cBool(head), cStr(in.Path), cStr(ae), c18OpsTerm(e, script),
+			cZ(0), cStr(""), G.term(e), P.term(e)))
+		compressed := len(G.CE) == 1 && G.CE[0] == "gzip" && len(P.CE) == 0
+		return Result{Term: term, Obs: map[string]interface{}{"G": G.brief(), "P": P.brief()}, Sig: "redirect",
+			Class: fmt.Sprintf("redirect:%d:gz=%v", P.Status, compressed), Nontrivial: compressed && P.Status >= 300 && P.Status < 400}
 	case "static":
 		G := c18Do(gsite.addr, method, in.Path, hdr)
 		P := c18Do(psite.addr, method, in.Path, hdr)
@@ -1312,6 +1361,99 @@ func c18Gen(r *Rand, tier string) []interface{} {
 			out = append(out, in)
 		}
 	}
+	// every status class, with and without a body, through the real gzip middleware: final
+	// statuses (also those that allow no body, with a handler that writes one nevertheless),
+	// informational WriteHeaders before the final one, already-encoded bodies; then casket's own
+	// redirects (redir directive, directory without trailing slash)
+	statuses := []int{101, 200, 201, 202, 203, 204, 205, 206, 226, 300, 301, 302, 303, 304, 307, 308, 400, 401, 403, 404, 405, 410, 416, 418, 429, 451, 500, 501, 502, 503, 504, 599}
+	nStatus := 2
+	if tier == "thorough" {
+		nStatus = 20
+	}
+	for rep := 0; rep < nStatus; rep++ {
+		for _, st := range statuses {
+			for _, withBody := range []bool{false, true} {
+				cfgs := []c18Cfg{{}}
+				if rep > 0 && r.Chance(50) {
+					cfgs = c18GenCfgs(r)
+				}
+				in := &c18In{Kind: "script", Stream: "status", Cfgs: cfgs, Method: "GET", Path: r.Pick([]string{"/x", "/x.txt", "/x.html", "/a/x.json"}),
+					AE: r.Pick([]string{"gzip", "gzip", "gzip, br", "br, gzip;q=0.5", "br", "gzip;q=0"})}
+				if r.Chance(12) {
+					in.Method = "HEAD"
+				}
+				nobody := st == 204 || st == 304 || st == 101
+				plain := c18Text(r, c18PickInt(r, []int{1, 37, 38, 400, 401}))
+				body, ce := plain, ""
+				if r.Chance(20) {
+					ce = r.Pick([]string{"br", "zstd", "gzip", "frob"})
+					switch ce {
+					case "br":
+						body = c18Brotli(plain)
+					case "zstd":
+						body = c18Zstd(plain)
+					case "gzip":
+						body = c18Gzip(plain)
+					}
+				}
+				ops := []c18Op{{K: "set", A: "Content-Type", B: r.Pick([]string{"text/plain", "text/html; charset=utf-8"})}}
+				if st >= 300 && st < 400 && st != 304 {
+					ops = append(ops, c18Op{K: "set", A: "Location", B: "/elsewhere"})
+				}
+				if r.Chance(30) {
+					ops = append(ops, c18Op{K: "set", A: "ETag", B: `"s-1"`})
+				}
+				// informational responses first (their headers: whatever is in the map by then)
+				ninfo := 0
+				if r.Chance(30) {
+					ninfo = r.Range(1, 2)
+				}
+				for k := 0; k < ninfo; k++ {
+					ops = append(ops, c18Op{K: "set", A: "Link", B: "</s.css>; rel=preload"}, c18Op{K: "wh", N: c18PickInt(r, []int{103, 103, 100, 102, 199})})
+					if r.Chance(50) {
+						ops = append(ops, c18Op{K: "set", A: "X-After-Info", B: "1"})
+					}
+				}
+				lateLabel := ninfo > 0 && r.Chance(25) // the class of F-C18-8
+				if ce != "" && withBody && !lateLabel {
+					ops = append(ops, c18Op{K: "set", A: "Content-Encoding", B: ce})
+				}
+				if withBody && !nobody && r.Chance(50) && (ninfo == 0 || lateLabel) {
+					ops = append(ops, c18Op{K: "set", A: "Content-Length", B: strconv.Itoa(len(body))})
+				}
+				if lateLabel && ce != "" && withBody {
+					ops = append(ops, c18Op{K: "set", A: "Content-Encoding", B: ce})
+				}
+				if st != 200 || r.Chance(50) {
+					ops = append(ops, c18Op{K: "wh", N: st})
+				}
+				if withBody {
+					for i, c := range c18Chunks(r, body) {
+						ops = append(ops, c18Op{K: "w", D: c})
+						if i == 0 && r.Chance(15) {
+							ops = append(ops, c18Op{K: "f"})
+						}
+					}
+				} else if r.Chance(20) {
+					ops = append(ops, c18Op{K: "f"})
+				}
+				in.Script = ops
+				out = append(out, in)
+			}
+		}
+		for _, p := range c18RedirPaths {
+			for _, m := range []string{"GET", "HEAD"} {
+				if m == "HEAD" && rep%2 == 1 {
+					continue
+				}
+				cfgs := []c18Cfg{{}}
+				if rep > 0 && r.Chance(50) {
+					cfgs = c18GenCfgs(r)
+				}
+				out = append(out, &c18In{Kind: "redirect", Cfgs: cfgs, Method: m, Path: p, AE: r.Pick([]string{"gzip", "gzip, br", "br", "zstd, br, gzip"})})
+			}
+		}
+	}
 	// precompressed siblings: the full matrix siblings on disk (8) x codings offered (8) in the
 	// plain spelling, then random sibling sets x per-coding spellings (parameters, q-values,
 	// case, blanks, Unicode white space, near misses) in random order
@@ -1529,7 +1671,7 @@ func init() {
 	registerGen("Gen_C18.v", c18GenCoq)
 	register(&Property{
 		ID: "C18", Imports: "V.Lib V.C18_LibPack V.C18_Model", Judge: "judge", Shard: 120,
-		Rule: "every case = two real round trips (site with the gzip blocks / same site without) with a scripted innermost handler (header ops, WriteHeader, chunked Writes, Flushes, error returns, already-encoded bodies in real gzip/br/zstd/deflate) or casket's file server on files with all 8 sibling combinations; static cases include the full 8x8 matrix siblings on disk x codings offered and random sibling sets x per-coding spellings (q-values, parameters, case, blanks, Unicode white space, near misses); bursts = a history of requests (error status or panic after a partial compressed body, bare errors, aborted downloads) then concurrent requests whose handlers hold their pooled writers together, against the Casketfile site or the gzip chain without errors middleware, under GOMAXPROCS 1/2/all, every response decoded; non-trivial = the gzip layer compressed, or the inner response was already encoded; distinct = distinct case term",
+		Rule: "every case = two real round trips (site with the gzip blocks / same site without) with a scripted innermost handler (header ops, WriteHeader, chunked Writes, Flushes, error returns, already-encoded bodies in real gzip/br/zstd/deflate) or casket's file server on files with all 8 sibling combinations; static cases include the full 8x8 matrix siblings on disk x codings offered and random sibling sets x per-coding spellings (q-values, parameters, case, blanks, Unicode white space, near misses); status stream = every status class (101, 2xx, 204/205/304, 3xx, 4xx, 5xx) with and without body, GET/HEAD, informational WriteHeaders before the final one, already-encoded bodies, and casket's own redirects (redir directive, directory without slash) below the gzip layer; bursts = a history of requests (error status or panic after a partial compressed body, bare errors, aborted downloads) then concurrent requests whose handlers hold their pooled writers together, against the Casketfile site or the gzip chain without errors middleware, under GOMAXPROCS 1/2/all, every response decoded; non-trivial = the gzip layer compressed, or the inner response was already encoded; distinct = distinct case term",
 		Gen: c18Gen,
 		Decode: func(raw json.RawMessage) (interface{}, error) {
 			in := &c18In{}
